@@ -315,9 +315,11 @@ def bearerAuth (token : Str) (h : Headers) : Headers :=
 def legalHeaderByte (b : UInt8) : Bool :=
   b.toNat < KG.Gen.C02.legalHeaderKeyBytesLen && KG.Gen.C02.legalHeaderKeyBytes.contains b.toNat
 
-/-- `shouldEscape` -/
+/-- `shouldEscape`: illegal header-name bytes, '%' itself, and the byte ranges a case-insensitive header name cannot
+    carry (`'A' <= b && b <= 'Z'`); the clauses are regenerated from the source -/
 def shouldEscape (b : UInt8) : Bool :=
-  !legalHeaderByte b || (KG.Gen.C02.escapesPercent && b == 37)
+  !legalHeaderByte b || (KG.Gen.C02.escapesPercent && b == 37) ||
+  KG.Gen.C02.escapeRanges.any (fun r => r.1 ≤ b.toNat && b.toNat ≤ r.2)
 
 /-- one upper-case hexadecimal digit (`%X`) -/
 def hexUpper (n : UInt8) : UInt8 := if n < 10 then 48 + n else 55 + n
